@@ -139,15 +139,20 @@ def build_md(engine, species, coords, sett, dt, Temp, output, charges=0, mult=1,
 
 def run_md(engine, species, coords, sett, dt, Temp, steps, prefix, molid=(0,), charges=0, mult=1, damp=None,
            xl=None, velocities=None, seed=None, reuse_P=True, remove_com=None, out_kw=None, engine_kw=None,
-           pre_run=None, keep=False):
-    """Real `md.run` into `prefix`.  -> dict: h5 (per molid, see read_h5), final coordinates / velocities of
+           pre_run=None, keep=False, engine_obj=None):
+    """Real `md.run` into `prefix`.  engine_obj: an EXISTING driver object to be reused on a fresh Molecule (its output
+    prefix is the one it was built with -- pass the same `prefix` so that the files are found).  -> dict: h5 (per molid, see read_h5), final coordinates / velocities of
     the Molecule object (all rows incl. padding), the exception text if run raised (`error`).
     pre_run(mol, md) is called right before md.run (monitors attach there)."""
     out = output_cfg(prefix, molid, **(out_kw or {}))
     rec = {"error": None}
     with quiet() as buf:
-        mol, md = build_md(engine, species, coords, sett, dt, Temp, out, charges, mult, damp, xl, velocities,
-                           engine_kw)
+        if engine_obj is None:
+            mol, md = build_md(engine, species, coords, sett, dt, Temp, out, charges, mult, damp, xl, velocities,
+                               engine_kw)
+        else:
+            mol, _ = build_md("basic", species, coords, sett, dt, Temp, out, charges, mult, velocities=velocities)
+            md = engine_obj
         if pre_run is not None:
             pre_run(mol, md)
         try:
